@@ -92,3 +92,25 @@ package types
 //@   ensures len: result1 == nil ==> len(result0) == CoresCount && fresh(result0)
 //@   ensures rejected: len(bytes) != AvailBitfieldBytes ==> result1 != nil
 //@   opt loopinv=params_ok() && len(bitfield) == CoresCount && len(bytes) == AvailBitfieldBytes && fresh(bitfield) && frame_only()
+
+// GP (8.3): alpha[c] minus the LEFTMOST occurrence of the used authorizer; nothing else moves.
+// heq: byte-wise equality of two 32-octet hashes. first(k): k is the leftmost index of h in the entry pool.
+//@ pred heq(x, y) = forall(b, 0, 32, x[b] == y[b])
+//@ func (*AuthPool).RemoveLeftMostPairedValue
+//@   props C24
+//@   requires recv: a != nil && len(*a) < 4294967296
+//@   ghost k int
+//@   ensures absent: forall(i, 0, len(old(*a)), !heq(old((*a)[i]), h)) ==> len(*a) == len(old(*a)) && forall(i, 0, len(old(*a)), heq((*a)[i], old((*a)[i])))
+//@   ensures leftmost: (0 <= k && k < len(old(*a)) && heq(old((*a)[k]), h) && forall(i, 0, k, !heq(old((*a)[i]), h))) ==> len(*a) == len(old(*a))-1 && forall(i, 0, k, heq((*a)[i], old((*a)[i]))) && forall(i, k, len(old(*a))-1, heq((*a)[i], old((*a)[i+1])))
+//@   ensures inplace: samestart(*a, old(*a))
+//@   assigns *a, (*a)[*]
+//@   loop rangeindex#0
+//@     invariant range: rangeindex >= -1 && rangeindex < len(old(*a)) && *a == old(*a)
+//@     invariant shape: samestart(local_result, old(*a)) && (removed ==> len(local_result) == rangeindex) && (!removed ==> len(local_result) == rangeindex+1)
+//@     invariant none: !removed ==> forall(i, 0, rangeindex+1, !heq(old((*a)[i]), h))
+//@     invariant some: removed ==> exists(i, 0, rangeindex+1, heq(old((*a)[i]), h))
+//@     invariant first: (0 <= k && k < len(old(*a)) && heq(old((*a)[k]), h) && forall(i, 0, k, !heq(old((*a)[i]), h))) ==> (removed == (rangeindex >= k))
+//@     invariant prefix: !removed ==> forall(i, 0, rangeindex+1, heq((*a)[i], old((*a)[i])))
+//@     invariant shifted: (removed && 0 <= k && k < len(old(*a)) && heq(old((*a)[k]), h) && forall(i, 0, k, !heq(old((*a)[i]), h))) ==> forall(i, 0, k, heq((*a)[i], old((*a)[i]))) && forall(i, k, rangeindex, heq((*a)[i], old((*a)[i+1])))
+//@     invariant suffix: forall(i, 0, len(old(*a)), i > rangeindex ==> heq((*a)[i], old((*a)[i])))
+//@     invariant frame: frame_only(*a, elems(*a))
